@@ -2,8 +2,9 @@
 (* A small nondeterministic SENDER drives the validator WsWire.               *)
 (* With Dev = "none" it is a conformant RFC 6455/7692 sender: it fragments    *)
 (* each message wherever it likes (including empty fragments and an empty     *)
-(* final frame), interleaves control frames, and for a compressed message     *)
-(* puts any number of octets into each frame.  WsWire must accept everything  *)
+(* final frame), interleaves control frames, decides per message for which    *)
+(* the extension is in force whether to compress it, and for a compressed     *)
+(* message puts any number of octets into each frame.  WsWire must accept everything  *)
 (* it does (NoReject), which guards against a validator that raises false     *)
 (* alarms.  Every other value of Dev is a named deviation - one realistic     *)
 (* framing mistake - and the validator must reject every complete stream in   *)
@@ -24,12 +25,13 @@ VARIABLES
   rem,        \* sender: octets of message k still to send (meaningless for a compressed message)
   bud,        \* sender: frames it may still use for message k (keeps the model finite)
   sopen,      \* sender: message k has been started
+  scmp,       \* sender: it compresses message k (its choice when msgs[k].z)
   nctl,       \* control frames sent
   ended,      \* the stream is over
   rejected,   \* the validator refused a frame or the end
   shown       \* the deviation has changed at least one frame
 
-svars == <<dev, k, rem, bud, sopen, nctl, ended, rejected, shown>>
+svars == <<dev, k, rem, bud, sopen, scmp, nctl, ended, rejected, shown>>
 vars  == <<wvars, svars>>
 
 AllDevs == {"rsv1-on-continuation", "rsv1-missing", "rsv1-uncompressed",
@@ -50,26 +52,30 @@ Mask(d, r) ==
     [] d = "server-masked"   /\ r = "server" -> 1
     [] OTHER                                 -> MaskBit(r)
 
-\* a data frame of message k: first or continuation, len octets, final or not
-DataFrame(first, len, final) ==
+\* a data frame of message k: first or continuation, len octets, final or not; cmp: the payload is compressed
+DataFrame(first, len, final, cmp) ==
   LET m    == msgs[k]
       cfin == final
+      \* what the first frame's RSV1 says about the message - the harness judges the payload by it
+      flag == CASE dev = "rsv1-missing"      -> FALSE
+                [] dev = "rsv1-uncompressed" -> TRUE
+                [] OTHER                     -> cmp
       fin  == CASE dev = "fin-on-every-frame" -> 1
                 [] dev = "fin-never"          -> 0
                 [] OTHER                      -> Bit(cfin)
-      r1   == CASE dev = "rsv1-on-continuation" -> Bit(m.z)
+      r1   == CASE dev = "rsv1-on-continuation" -> Bit(cmp)
                 [] dev = "rsv1-missing"         -> 0
                 [] dev = "rsv1-uncompressed"    -> Bit(first)
-                [] OTHER                        -> Bit(first /\ m.z)
+                [] OTHER                        -> Bit(first /\ cmp)
       \* what the harness computes for the message that ends (according to the FIN bit) here:
       \* it is the whole message exactly if the conformant sender would have ended it here
       whole == cfin /\ dev # "payload-truncated"
   IN [fin |-> fin, r1 |-> r1, r23 |-> (IF dev = "rsv3-set" THEN 1 ELSE 0),
       op |-> (IF first THEN m.t ELSE OpCont),
       m |-> Mask(dev, role), form |-> Form(dev, len), len |-> len, n |-> 1,
-      ieq |-> whole,
-      ilen |-> (IF m.z THEN (IF whole THEN m.size ELSE -1) ELSE len),   \* (a compressed JSON text: the shorter form)
-      last |-> (IF m.z THEN (IF dev = "deflate-tail-kept" THEN 255 ELSE 0) ELSE -1)]
+      ieq |-> (whole /\ flag = cmp),        \* compressed octets read as they are, or plain octets inflated: not the message
+      ilen |-> (IF flag THEN (IF whole /\ cmp THEN m.size ELSE -1) ELSE len),   \* (a compressed JSON text: the shorter form)
+      last |-> (IF flag THEN (IF dev = "deflate-tail-kept" THEN 255 ELSE 0) ELSE -1)]
 
 CtlFrame(op, len) ==
   [fin |-> (IF dev = "control-fragmented" THEN 0 ELSE 1),
@@ -77,12 +83,12 @@ CtlFrame(op, len) ==
    m |-> Mask(dev, role), form |-> Form(dev, len), len |-> len, n |-> 1]
 
 \* does the frame differ from what the conformant sender would have sent?
-Conformant(first, len, final) ==
+Conformant(first, len, final, cmp) ==
   LET m == msgs[k] IN
-  [fin |-> Bit(final), r1 |-> Bit(first /\ m.z), r23 |-> 0, op |-> (IF first THEN m.t ELSE OpCont),
+  [fin |-> Bit(final), r1 |-> Bit(first /\ cmp), r23 |-> 0, op |-> (IF first THEN m.t ELSE OpCont),
    m |-> MaskBit(role), form |-> MinimalForm(len), len |-> len, n |-> 1,
-   ieq |-> final, ilen |-> (IF m.z THEN (IF final THEN m.size ELSE -1) ELSE len),
-   last |-> (IF m.z THEN 0 ELSE -1)]
+   ieq |-> final, ilen |-> (IF cmp THEN (IF final THEN m.size ELSE -1) ELSE len),
+   last |-> (IF cmp THEN 0 ELSE -1)]
 ConformantCtl(op, len) ==
   [fin |-> 1, r1 |-> 0, r23 |-> 0, op |-> op, m |-> MaskBit(role), form |-> MinimalForm(len), len |-> len, n |-> 1]
 
@@ -92,29 +98,31 @@ Feed(f) == IF Accepts(f) THEN Frame(f) /\ rejected' = FALSE
 
 Init == /\ role \in Roles
         /\ msgs \in MsgLists
-        /\ i = 1 /\ open = FALSE /\ acc = 0
+        /\ i = 1 /\ open = FALSE /\ acc = 0 /\ cz = FALSE
         /\ dev \in (IF Dev = "any" THEN AllDevs ELSE {Dev})
-        /\ k = 1 /\ rem = 0 /\ bud = MaxFrags /\ sopen = FALSE /\ nctl = 0
+        /\ k = 1 /\ rem = 0 /\ bud = MaxFrags /\ sopen = FALSE /\ scmp = FALSE /\ nctl = 0
         /\ ended = FALSE /\ rejected = FALSE /\ shown = FALSE
 
 \* lengths the sender may put into the next data frame, and whether it is the last one
-Choices(Left) ==
-  IF msgs[k].z
+Choices(Left, cmp) ==
+  IF cmp
   THEN \* the compressed octets are the sender's business: any length, end whenever it likes
        {c \in (FragLens \cup {1}) \X BOOLEAN : c[2] \/ bud > 1}
   ELSE {c \in (FragLens \cup {Left}) \X BOOLEAN : c[1] <= Left /\ (c[2] => c[1] = Left) /\ (c[2] \/ bud > 1)}
 
 SendData ==
   /\ ~ended /\ ~rejected /\ k <= Len(msgs)
-  /\ \E Left \in (IF sopen THEN {rem} ELSE Lens(msgs[k])) : \E c \in Choices(Left) :
+  /\ \E Left \in (IF sopen THEN {rem} ELSE Lens(msgs[k])) :
+     \E cmp \in (IF sopen THEN {scmp} ELSE IF msgs[k].z THEN BOOLEAN ELSE {FALSE}) :    \* RFC 7692 6: per message
+     \E c \in Choices(Left, cmp) :
        LET len   == c[1]
            final == c[2]
            first == ~sopen
-           f     == DataFrame(first, len, final)
+           f     == DataFrame(first, len, final, cmp)
        IN /\ Feed(f)
-          /\ shown' = (shown \/ f # Conformant(first, len, final))
-          /\ IF final THEN k' = k + 1 /\ sopen' = FALSE /\ rem' = 0 /\ bud' = MaxFrags
-                      ELSE k' = k /\ sopen' = TRUE /\ rem' = (IF msgs[k].z THEN 0 ELSE Left - len) /\ bud' = bud - 1
+          /\ shown' = (shown \/ f # Conformant(first, len, final, cmp))
+          /\ IF final THEN k' = k + 1 /\ sopen' = FALSE /\ rem' = 0 /\ bud' = MaxFrags /\ scmp' = FALSE
+                      ELSE k' = k /\ sopen' = TRUE /\ rem' = (IF cmp THEN 0 ELSE Left - len) /\ bud' = bud - 1 /\ scmp' = cmp
   /\ UNCHANGED <<dev, nctl, ended>>
 
 \* the sender that interleaves: starts message k+1 while k is open (only as a deviation)
@@ -126,7 +134,7 @@ SendInterleaved ==
                ieq |-> TRUE, ilen |-> m.size, last |-> (IF m.z THEN 0 ELSE -1)]
      IN Feed(f) /\ shown' = TRUE
   /\ ended' = TRUE
-  /\ UNCHANGED <<dev, k, rem, bud, sopen, nctl>>
+  /\ UNCHANGED <<dev, k, rem, bud, sopen, scmp, nctl>>
 
 SendCtl ==
   /\ ~ended /\ ~rejected /\ nctl < MaxCtl
@@ -135,7 +143,7 @@ SendCtl ==
        /\ Feed(f)
        /\ shown' = (shown \/ f # ConformantCtl(op, len) \/ len > 125)
   /\ nctl' = nctl + 1
-  /\ UNCHANGED <<dev, k, rem, bud, sopen, ended>>
+  /\ UNCHANGED <<dev, k, rem, bud, sopen, scmp, ended>>
 
 \* the stream ends when the sender has sent everything (a sender that never sets FIN thinks so too)
 End ==
@@ -143,7 +151,7 @@ End ==
   /\ k = Len(msgs) + 1
   /\ ended' = TRUE
   /\ rejected' = ~CanEnd
-  /\ UNCHANGED <<wvars, dev, k, rem, bud, sopen, nctl, shown>>
+  /\ UNCHANGED <<wvars, dev, k, rem, bud, sopen, scmp, nctl, shown>>
 
 Next == SendData \/ SendCtl \/ SendInterleaved \/ End
 Spec == Init /\ [][Next]_vars
@@ -152,7 +160,7 @@ Spec == Init /\ [][Next]_vars
 NoReject == ~rejected                          \* with Dev = "none": the conformant sender is always accepted
 Sound    == rejected => shown                  \* a frame is only ever refused if a deviation changed it
 Caught   == (ended /\ shown) => rejected       \* a deviation that shows never passes
-InSync   == (~rejected /\ ~shown) => (i = k /\ open = sopen)
+InSync   == (~rejected /\ ~shown) => (i = k /\ open = sopen /\ cz = scmp)
 TypeInv  == TypeOk
 
 \* --------------------------------------------------------------- configurations
